@@ -31,3 +31,14 @@ Proof. exact join_split. Qed.
 (* the specification's uint32-prefixed strings decode back, whatever follows *)
 Theorem C07_spec_string_roundtrip : forall b s, zlen b < 4294967296 -> dec_string (enc_string b ++ s) = Some (b, s).
 Proof. exact dec_enc_string. Qed.
+
+(* identification string (RFC 4253 4.2): accepted up to and including 255 characters with CR LF, refused beyond *)
+Theorem C07_banner_length_rule : forall proto software comment,
+  let b := banner_prefix ++ proto ++ (cons b_dash nil) ++ software ++ match comment with Some c => b_sp :: c | None => nil end ++ (cons b_cr (cons b_lf nil)) in
+  (zlen b <= 255 -> enc_banner proto software comment = Some b) /\ (255 < zlen b -> enc_banner proto software comment = None).
+Proof. exact banner_length_rule. Qed.
+
+Theorem C07_banner_length_formula : forall proto software comment,
+  zlen (banner_prefix ++ proto ++ (cons b_dash nil) ++ software ++ match comment with Some c => b_sp :: c | None => nil end ++ (cons b_cr (cons b_lf nil)))
+  = 4 + zlen proto + 1 + zlen software + match comment with Some c => 1 + zlen c | None => 0 end + 2.
+Proof. exact banner_length_formula. Qed.
